@@ -262,12 +262,17 @@ class ChainSuite(Suite):
                     res["map"] = [float(v) for v in obj.map(root_x, max_worker=2)]
                 # rows of same-named files across directories
                 same = os.path.join(tmp, "same")
-                names = ["a.swc", "b.swc", "c.swc", "only1.swc"]
+                names = ["a.swc", "b.swc", "c.swc", "only1.swc", "sub/n1.swc", "sub/deep/n2.swc", "sub/only1b.swc"]
                 write_dir(os.path.join(same, "r1"), names, marker0=0)
-                write_dir(os.path.join(same, "r2"), ["c.swc", "a.swc", "b.swc", "only2.swc"], marker0=100)
-                pp = Populations.from_swc([os.path.join(same, "r1"), os.path.join(same, "r2")])
-                res["rows"] = [[os.path.basename(t.source) for t in pp[i]] for i in range(len(pp))]
+                write_dir(os.path.join(same, "r2"), ["c.swc", "a.swc", "b.swc", "only2.swc", "sub/deep/n2.swc", "sub/n1.swc"], marker0=100)
+                # the roots as a user may spell them: plain, with a trailing separator on one or on both
+                style = (sum(case["lens"]) + len(case["keys"])) % 3
+                r1 = os.path.join(same, "r1") + (os.sep if style in (1, 2) else "")
+                r2 = os.path.join(same, "r2") + (os.sep if style == 2 else "")
+                pp = Populations.from_swc([r1, r2])
+                res["rows"] = [[os.path.relpath(t.source, rt).replace(os.sep, "/") for t, rt in zip(pp[i], (r1, r2))] for i in range(len(pp))]
                 res["rows_len"] = len(pp)
+                res["root_style"] = style
             return res
         finally:
             shutil.rmtree(tmp, ignore_errors=True)
@@ -301,8 +306,9 @@ class ChainSuite(Suite):
             out.append(("chain-iter", f"iteration {res['iter']} ≠ concatenation {conc}"))
         if "map" in res and [int(round(v)) for v in res["map"]] != conc:
             out.append(("map-order", f"map returned {res['map']}, trees in order are {conc}"))
-        if res["rows_len"] != 3 or any(len(set(r)) != 1 for r in res["rows"]) or sorted(r[0] for r in res["rows"]) != ["a.swc", "b.swc", "c.swc"]:
-            out.append(("populations-rows", f"rows of Populations.from_swc: {res['rows']}"))
+        want = ["a.swc", "b.swc", "c.swc", "sub/deep/n2.swc", "sub/n1.swc"]
+        if res["rows_len"] != len(want) or any(len(set(r)) != 1 for r in res["rows"]) or sorted(r[0] for r in res["rows"]) != want:
+            out.append(("populations-rows", f"rows of Populations.from_swc (root spelling {res.get('root_style')}): {res['rows']}; the files present under both roots are {want}"))
         return out[:3]
 
     def nontrivial(self, case, res):
